@@ -160,12 +160,25 @@ func (g *Gen) call(d int) *R {
 
 var smallIdx = []int64{0, 1, -1, 2, -2, 5, -5}
 
+// integer literals at the limits of the representations an implementation may pick (8, 16, 32, 64 bits)
+var edgeIdx = []int64{255, 256, 257, -255, -256, -257, 127, 128, -128, -129, 65535, 65536, -65536, 2147483647, 2147483648, -2147483648, -2147483649, 4294967295, 4294967296, 9223372036854775807, -9223372036854775808, -9223372036854775807}
+
+func genIdx() int64 {
+	if rng.Intn(10) == 0 {
+		return pick(edgeIdx)
+	}
+	return pick(smallIdx)
+}
+
 func (g *Gen) sliceParts() (a, b, c *int64) {
 	opt := func(pool []int64) *int64 {
 		if rng.Intn(3) == 0 {
 			return nil
 		}
 		v := pick(pool)
+		if rng.Intn(14) == 0 {
+			v = pick(edgeIdx)
+		}
 		return &v
 	}
 	a = opt(smallIdx)
@@ -183,7 +196,7 @@ func (g *Gen) selector(e *R, d int) *R {
 	case n < 5:
 		return sub(e, fld(pick(fieldNames)))
 	case n < 7:
-		return idx(e, pick(smallIdx))
+		return idx(e, genIdx())
 	case n < 9:
 		return proj(PList, e, g.rhs(d, 9))
 	case n == 9:
@@ -235,7 +248,7 @@ func (g *Gen) rhs(d int, stop int) *R {
 		case k < 5:
 			e = sub(e, fld(pick(fieldNames)))
 		case k < 7:
-			e = idx(e, pick(smallIdx))
+			e = idx(e, genIdx())
 		case k == 7:
 			return proj(PList, e, g.rhs(d-1, 9))
 		case k == 8 && stop < 10:
